@@ -59,6 +59,18 @@ Proof.
   destruct (handler (mark (record pre))); reflexivity.
 Qed.
 
+(* a SendToFx claim forwarded over IBC: a failure at ANY stage (deposit, conversion to the voucher, the transfer itself —
+   whatever the earlier stages wrote) is not tolerated: the transaction keeps nothing, the claim stays pending *)
+Lemma stf_failure_keeps_nothing S consume (deposit to_voucher transfer : S -> result S) s e :
+  send_to_fx_ibc S consume deposit to_voucher transfer s = Err e ->
+  send_to_fx_ibc_tx S consume deposit to_voucher transfer s = (s, false).
+Proof. intros H. unfold send_to_fx_ibc_tx. eapply tx_err; eauto. Qed.
+
+Lemma stf_fails_at_transfer S consume (deposit to_voucher transfer : S -> result S) s s1 s2 e :
+  deposit (consume s) = Ok s1 -> to_voucher s1 = Ok s2 -> transfer s2 = Err e ->
+  send_to_fx_ibc S consume deposit to_voucher transfer s = Err e.
+Proof. intros H1 H2 H3. unfold send_to_fx_ibc. rewrite H1. cbn. rewrite H2. cbn. exact H3. Qed.
+
 (* ------------------------------------------------------------------------------------------ *)
 (** * boundary 3: gov *)
 
